@@ -13,9 +13,11 @@ the events.
 from __future__ import annotations
 
 import ast
+import contextlib
 import gc
 import importlib
 import inspect
+import io
 import types
 
 from pynguin.assertion.mutation_analysis import mutators as mu
@@ -443,7 +445,9 @@ class _Session:
         pre = self.tree_id(fresh=False)
         was = self.st
         try:
-            item = next(self.gen)
+            # MutationController executes the mutant module; mutated `__name__ == "__main__"` guards print
+            with contextlib.redirect_stdout(io.StringIO()):
+                item = next(self.gen)
         except StopIteration:
             self.st = "done"
             self.event("next", was, pre, rt="stop", seen=list(self.seen), k=k)
